@@ -57,6 +57,12 @@ class ClassVal:
                         self.classmethods.add(n.name)
             elif isinstance(n, ast.Assign) and isinstance(n.targets[0], ast.Name):
                 self.attrs[n.targets[0].id] = n.value
+        # `name = property(getter)` in the class body, getter being a function defined in the same body: the same thing as the decorator spelling
+        for aname, val in list(self.attrs.items()):
+            if isinstance(val, ast.Call) and isinstance(val.func, ast.Name) and val.func.id == "property" and len(val.args) == 1 and not val.keywords \
+                    and isinstance(val.args[0], ast.Name) and val.args[0].id in self.methods:
+                self.props[aname] = self.methods[val.args[0].id]
+                del self.attrs[aname]
 
 
 class FuncVal:
@@ -92,6 +98,44 @@ class ModRef:
 class BoundModel:
     def __init__(self, ident, fn, recv):
         self.ident, self.fn, self.recv = ident, fn, recv
+
+
+class GenIter:
+    """The values of a generator FUNCTION, materialised eagerly (the engine runs the body to its end and records every `yield`), with a read position: next() takes
+    one, a for loop / list() takes the rest.  Assumes the generator is pure and finite -- the interleaving of its body with the consumer's code is not modelled."""
+
+    def __init__(self, items):
+        self.items = list(items)
+        self.pos = 0
+
+    def take(self):
+        if self.pos >= len(self.items):
+            raise PyRaise("StopIteration", "")
+        self.pos += 1
+        return self.items[self.pos - 1]
+
+    def rest(self):
+        out = self.items[self.pos:]
+        self.pos = len(self.items)
+        return out
+
+
+def _has_yield(node):
+    cached = getattr(node, "_pyvc_has_yield", None)
+    if cached is None:
+        def walk(n):
+            for ch in ast.iter_child_nodes(n):
+                if isinstance(ch, (ast.FunctionDef, ast.AsyncFunctionDef, ast.Lambda, ast.ClassDef)):
+                    continue
+                if isinstance(ch, (ast.Yield, ast.YieldFrom)) or walk(ch):
+                    return True
+            return False
+        cached = walk(node)
+        try:
+            node._pyvc_has_yield = cached
+        except Exception:  # noqa
+            pass
+    return cached
 
 
 class _Return(Exception):
@@ -381,6 +425,8 @@ class Interp:
                 m = source.load_module(modname)
             except FileNotFoundError:
                 return ModRef(dotted)
+            if m.imports.get(attr) == dotted and attr not in m.functions and attr not in m.classes and attr not in m.assigns:
+                return ModRef(dotted)          # `from . import _ext`: a (compiled) submodule of the package, known only by its dotted name
             return self.lookup_global(m, attr)
         return ModRef(dotted)
 
@@ -430,6 +476,25 @@ class Interp:
             args = [fv.bound] + list(args)
         qn = fv.qualname
         if qn in self.contracts and self.depth > 0:
+            # a sidecar contract is written against the callee's parameter ORDER, not its parameter names: keyword arguments that name the next positional
+            # parameters of the real signature are handed over positionally (a call site switching to keyword arguments is not a behaviour change)
+            c_ = self.contracts[qn]
+            fits = True
+            if kwargs and c_.result is not None:
+                import inspect
+                try:
+                    inspect.signature(c_.result).bind(self, *args, **kwargs)
+                except TypeError:
+                    fits = False
+                except ValueError:
+                    fits = True
+            if kwargs and not fits and isinstance(fv.node, (ast.FunctionDef, ast.Lambda)):
+                params = [a_.arg for a_ in list(fv.node.args.posonlyargs) + list(fv.node.args.args)]
+                args = list(args)
+                for name in params[len(args):]:
+                    if name not in kwargs:
+                        break
+                    args.append(kwargs.pop(name))
             return self.call_contract(self.contracts[qn], qn, args, kwargs)
         if self.depth > self.inline_depth:
             raise Unsupported(f"inline depth exceeded at {qn}")
@@ -439,12 +504,15 @@ class Interp:
             return self.eval(fv.node.body, fr)
         env = self.bind_args(fv.node, list(args), kwargs, fv.mod, fv.closure)
         fr = Frame(fv.mod, env, fv.cls, fname=qn)
+        gen = _has_yield(fv.node)
+        if gen:
+            fr.yields = []
         self.depth += 1
         try:
             self.exec_block(fv.node.body, fr)
-            return None
+            return GenIter(fr.yields) if gen else None
         except _Return as r:
-            return r.value
+            return GenIter(fr.yields) if gen else r.value
         finally:
             self.depth -= 1
 
@@ -1425,6 +1493,17 @@ class Interp:
         if isinstance(tnode, ast.Tuple):
             return any(self.isinstance(v, t, fr) for t in tnode.elts)
         tname = ast.unparse(tnode)
+        if isinstance(tnode, ast.Name) and tnode.id in fr.env:
+            # the type is held in a local variable (e.g. taken from a table of (type, handler) pairs): decide by the value it holds
+            tv = fr.env[tnode.id]
+            if isinstance(tv, tuple):
+                return any(self.isinstance(v, ast.Name(id=f"__t{k}"), Frame(fr.mod, {f"__t{k}": t_}, fr.cls)) for k, t_ in enumerate(tv))
+            if isinstance(tv, ModelFn) and tv.ident.startswith("builtins."):
+                tname = tv.ident.split(".", 1)[1]
+            elif isinstance(tv, type):
+                tname = tv.__name__
+            elif not isinstance(tv, ClassVal):
+                raise Unsupported(f"isinstance(.., {tname}) with a type object of kind {type(tv).__name__}")
         if isinstance(v, Obj):
             cv = None
             try:
@@ -1644,6 +1723,18 @@ class Interp:
             return acc
         return chain(vals)
 
+    def e_Yield(self, e, fr):
+        if not hasattr(fr, "yields"):
+            raise Unsupported("yield outside a generator function the engine is running")
+        fr.yields.append(self.eval(e.value, fr) if e.value is not None else None)
+        return None
+
+    def e_YieldFrom(self, e, fr):
+        if not hasattr(fr, "yields"):
+            raise Unsupported("yield from outside a generator function the engine is running")
+        fr.yields.extend(self.iterate(self.eval(e.value, fr)))
+        return None
+
     def e_ListComp(self, e, fr):
         return list(self.comprehension(e, fr, lambda f2: self.eval(e.elt, f2)))
 
@@ -1714,6 +1805,8 @@ class Interp:
         from .strings import SStr
         if isinstance(v, (list, tuple)):
             return list(v)
+        if isinstance(v, GenIter):
+            return v.rest()
         if isinstance(v, range):
             return list(v)
         if isinstance(v, (set, frozenset)):
